@@ -28,6 +28,9 @@ type c05Case struct {
 	// IssuerSig: the issuer's own configured signatureAlgorithm ("" = SHA-256 of its scheme, "omitted" = none written).
 	// It says how the issuer's certificate is signed and nothing about the certificates the issuer signs.
 	IssuerSig string `json:",omitempty"`
+	// ViaAPI: the subject is not found in the directory; its configuration (parsed by gopki) is handed to the open database
+	// through db.AddAndSign, the way a caller of the library adds a certificate
+	ViaAPI bool `json:",omitempty"`
 }
 
 // documented meaning of the EC names (RFC 5480 / RFC 5639 object identifiers)
@@ -67,8 +70,14 @@ func checkC05(c c05Case) (*core.Failure, string) {
 		wantSig = defaultSigFor(c.KeyAlg)
 	}
 	fits := xref.SigAlgByName(wantSig).Scheme == keyKind(signerAlg)
-	d := w.Dir()
-	res := core.Run(d, core.FlagDefault)
+	var d *core.Dir
+	var res core.RunResult
+	if c.ViaAPI {
+		d, res = runLastViaAPI(&w)
+	} else {
+		d = w.Dir()
+		res = core.Run(d, core.FlagDefault)
+	}
 	if res.Panic != "" {
 		return core.Failf("C05/panic", "gopki panicked: %s", res.Panic), "panic"
 	}
@@ -120,7 +129,7 @@ func checkC05(c c05Case) (*core.Failure, string) {
 func TestC05(t *testing.T) {
 	r := core.Start(t, "C05")
 	defer r.Finish()
-	r.Rule = "exhaustive table: keyAlgorithm in {omitted, 14 names} x signatureAlgorithm in {omitted, 8 names} for self-signed roots, and the same table below pre-placed RSA-2048, P-384 and brainpoolP384r1 issuers (keys are generated by gopki for the subject, never pre-placed). Quick tier leaves out the cells that generate RSA-4096/RSA-8192 keys (0.8 s / ~50 s per key); thorough runs all of them. Oracle: decoded PRIVATE KEY block (modulus length / curve OID from RFC 5480/5639), SPKI algorithm and parameters, SPKI bits == public key recomputed from the private key (own d*G), signature OIDs. Additionally every EC curve is generated 60 (quick) / 1200 (thorough) more times (value-dependent encodings), and the RSA-4096/8192 signature-identifier cells are run with pooled pre-placed keys in both tiers. Sessions on one open database: a first attempt fails (signature algorithm of the wrong family, after the key was made), the corrected configuration with another keyAlgorithm is handed in through db.AddAndSign and must get a key of that algorithm. Non-trivial = cell whose signature algorithm fits the signing key (a certificate must exist); every cell (and repeat) counts once."
+	r.Rule = "exhaustive table: keyAlgorithm in {omitted, 14 names} x signatureAlgorithm in {omitted, 8 names} for self-signed roots, and the same table below pre-placed RSA-2048, P-384 and brainpoolP384r1 issuers (keys are generated by gopki for the subject, never pre-placed). Quick tier leaves out the cells that generate RSA-4096/RSA-8192 keys (0.8 s / ~50 s per key); thorough runs all of them. Oracle: decoded PRIVATE KEY block (modulus length / curve OID from RFC 5480/5639), SPKI algorithm and parameters, SPKI bits == public key recomputed from the private key (own d*G), signature OIDs. Additionally every EC curve is generated 60 (quick) / 1200 (thorough) more times (value-dependent encodings), and the RSA-4096/8192 signature-identifier cells are run with pooled pre-placed keys in both tiers. The cells with cheap keys (EC, RSA-1024) for roots and below the P-384 issuer are run a second time with the subject's configuration handed to the open database through db.AddAndSign instead of being found in the directory. Sessions on one open database: a first attempt fails (signature algorithm of the wrong family, after the key was made), the corrected configuration with another keyAlgorithm is handed in through db.AddAndSign and must get a key of that algorithm. Non-trivial = cell whose signature algorithm fits the signing key (a certificate must exist); every cell (and repeat) counts once."
 	r.Assumptions = []string{"omitted keyAlgorithm: P-256 and P-224 both accepted (the documentation names both)", "cells whose signature algorithm does not fit the signing key must fail; that part is C01's and only counted here"}
 	wrap := func(c c05Case) *core.Failure {
 		f, kind := checkC05(c)
@@ -131,6 +140,9 @@ func TestC05(t *testing.T) {
 		role := "root"
 		if c.IssuerAlg != "" {
 			role = "sub-under-" + c.IssuerAlg
+		}
+		if c.ViaAPI {
+			role += "/via-AddAndSign"
 		}
 		r.Case(key, "cell:"+kind, role)
 		r.Sample(role+":"+kind, c)
@@ -191,6 +203,11 @@ func TestC05(t *testing.T) {
 					c.IssuerSig = append(append([]string{}, fittingSigAlgs(keyKind(issuer))...), "omitted")[i%5]
 				}
 				r.Report("cell", c, wrap(c))
+				if rsaBits(ka) < 2048 && (issuer == "" || issuer == "P-384") {
+					// the same cell with the subject handed to an open database through db.AddAndSign
+					c.ViaAPI = true
+					r.Report("cell", c, wrap(c))
+				}
 			}
 		}
 	}
@@ -306,4 +323,50 @@ func checkC05Session(c c05Session) *core.Failure {
 		return core.Failf("C05/spki-key", "the certificate does not carry the stored key's public key")
 	}
 	return nil
+}
+
+// runLastViaAPI runs the world without its last entity, then hands that entity's configuration (as gopki parses it from the
+// rendered text) to the same open database through db.AddAndSign. Stage "api" reports a refusal by AddAndSign.
+func runLastViaAPI(w *World) (*core.Dir, core.RunResult) {
+	last := w.Ents[len(w.Ents)-1]
+	rest := World{Ents: w.Ents[:len(w.Ents)-1], Profs: w.Profs, Files: w.Files}
+	d := rest.Dir()
+	d.Tick(10)
+	var res core.RunResult
+	dbase := filesystem.NewFilesystemDatabase(&core.MemFS{D: d})
+	if err := dbase.Open(); err != nil {
+		res.Stage, res.Err = "open", err.Error()
+		return d, res
+	}
+	defer dbase.Close()
+	func() {
+		defer func() {
+			if p := recover(); p != nil {
+				res.Panic = fmt.Sprint(p)
+			}
+		}()
+		plan, err := db.PlanBulkUpdate(dbase, db.UpdateStrategy(core.FlagDefault))
+		if err == nil {
+			_, err = db.BulkUpdate(dbase, plan)
+		}
+		if err != nil {
+			res.Stage, res.Err = "update", err.Error()
+			return
+		}
+		parsed, err := config.ParseConfig(bytes.NewReader(last.Render()))
+		if err != nil {
+			res.Stage, res.Err = "parse", err.Error()
+			return
+		}
+		cc, ok := parsed.(*config.CertificateContent)
+		if !ok {
+			res.Stage, res.Err = "parse", "not a certificate configuration"
+			return
+		}
+		cc.Alias = last.EffAlias()
+		if _, err := db.AddAndSign(dbase, *cc, true); err != nil {
+			res.Stage, res.Err = "api", err.Error()
+		}
+	}()
+	return d, res
 }
